@@ -79,8 +79,10 @@ def chain (now : Int) : List (Int × Int × Req) → List Int × List Res
     | (l', .pass) => let r := chain now rest; (l' :: r.1, .pass :: r.2)
     | (l', .wait w) => let r := chain (now + w) rest; (l' :: r.1, .wait w :: r.2)
 
-/-- a controller: the rule it was built for, and its checker's `lastPassedTime` -/
+/-- a controller: its identity (controllers are shared by reference between the old and the new list), the rule it was
+    built for, and its checker's `lastPassedTime` -/
 structure Ctl (ρ : Type) where
+  id : Nat
   rule : ρ
   last : Int
 deriving Repr
@@ -90,16 +92,58 @@ def findEq {ρ : Type} (eq : ρ → ρ → Bool) (r : ρ) : List (Ctl ρ) → Op
   | [] => none
   | c :: cs => if eq c.rule r then some 0 else (findEq eq r cs).map (· + 1)
 
-/-- `buildResourceTrafficShapingController` for throttling rules -/
-def reload {ρ : Type} (eq : ρ → ρ → Bool) : List (Ctl ρ) → List ρ → List (Ctl ρ)
-  | _, [] => []
-  | old, r :: rs =>
+/-- `buildResourceTrafficShapingController` for throttling rules; `next` = first unused identity -/
+def reload {ρ : Type} (eq : ρ → ρ → Bool) : Nat → List (Ctl ρ) → List ρ → List (Ctl ρ)
+  | _, _, [] => []
+  | next, old, r :: rs =>
     match findEq eq r old with
     | some i =>
       match old[i]? with
-      | some c => c :: reload eq (old.eraseIdx i) rs
-      | none => ⟨r, 0⟩ :: reload eq old rs          -- unreachable
-    | none => ⟨r, 0⟩ :: reload eq old rs
+      | some c => c :: reload eq (next + 1) (old.eraseIdx i) rs
+      | none => ⟨next, r, 0⟩ :: reload eq (next + 1) old rs          -- unreachable
+    | none => ⟨next, r, 0⟩ :: reload eq (next + 1) old rs
+
+/-! ### a reload while a request sleeps
+
+`Slot.Check` fetches the controller slice once; a `LoadRules` that runs while the request sleeps for one rule replaces
+the map entry, the request goes on over the slice it holds.  The controllers that the reload moved over to the new
+list are the same objects, so whatever the rest of the walk adds to their timestamps is seen in the new list; a
+controller that was not moved over is dropped together with what the walk adds to it. -/
+
+/-- the walk up to and including the first sleep: new timestamps (all positions; the ones not visited unchanged), the
+    results of the visited controllers, and the clock after the sleep if it stopped at one -/
+def chainHead (now : Int) : List (Int × Int × Req) → List Int × List Res × Option Int
+  | [] => ([], [], none)
+  | (maxQ, last, q) :: rest =>
+    match doCheck maxQ last now q with
+    | (l', .block) => (l' :: rest.map (·.2.1), [.block], none)
+    | (l', .pass) => let r := chainHead now rest; (l' :: r.1, .pass :: r.2.1, r.2.2)
+    | (l', .wait w) => (l' :: rest.map (·.2.1), [.wait w], some (now + w))
+
+def Ctl.setLast {ρ : Type} (upd : List (Nat × Int)) (c : Ctl ρ) : Ctl ρ :=
+  match upd.lookup c.id with
+  | some l => { c with last := l }
+  | none => c
+
+/-- one request over `ctls` (`par` = limit and request class per rule) whose first sleep is used by a reload to `rules`
+    (`none`: nothing armed, or the rule manager skips the load).  Returns the controllers in force afterwards, the results
+    of the visited controllers, and whether the reload happened. -/
+def chainReload {ρ : Type} (eq : ρ → ρ → Bool) (next : Nat) (now : Int) (ctls : List (Ctl ρ)) (par : ρ → Int × Req)
+    (rules : Option (List ρ)) : List (Ctl ρ) × List Res × Bool :=
+  let inp := fun (cs : List (Ctl ρ)) => cs.map fun c => ((par c.rule).1, c.last, (par c.rule).2)
+  let withLasts := fun (cs : List (Ctl ρ)) (ls : List Int) => (cs.zip ls).map fun (c, l) => { c with last := l }
+  let h := chainHead now (inp ctls)
+  match h.2.2, rules with
+  | some now1, some rules =>
+    let old1 := withLasts ctls h.1                       -- what the reload sees
+    let k := h.2.1.length
+    let mid := reload eq next old1 rules
+    let rest := ctls.drop k                              -- the request goes on over the slice it holds (not yet visited: untouched)
+    let t := chain now1 (inp rest)
+    (mid.map (Ctl.setLast ((rest.map (·.id)).zip t.1)), h.2.1 ++ t.2, true)
+  | _, _ =>
+    let t := chain now (inp ctls)
+    (withLasts ctls t.1, t.2, false)
 
 /-! ## small-step version -/
 
